@@ -9,8 +9,6 @@ PROFILES = {
     # 96 words (Vec<SigningKey> = 85, Vec<(u32, Address)> = 43); traphook = trap observer of the model, which lets the converse
     # direction of a limit clause ("is accepted at the documented maximum") report a trap under its own clause name
     'reg_ci21': {'features': ['cap21', 'vw96', 'traphook']},
-    # token binder at the bucket boundary: vectors of BUCKET_SIZE = 100 addresses (101 words)
-    'reg_edge': {'features': ['cap100', 'vw128']},
     # claim topics and issuers: universe of 3 topics x 3 issuers, vectors of 3
     'reg_cap3': {'features': ['cap3']},
     # identity registry storage: IdentityProfile with 2 country entries (each carrying an optional 2-entry metadata map) = 32 words;
@@ -33,13 +31,13 @@ CI_LIMIT_BOUNDS = ('Pairs(K) = n ARBITRARY pairwise different (topic, registry) 
 CLAIM_ISSUER = [
     K('registries::claim_issuer::allow_key_step', 'reg_ci', functions=[CI + 'allow_key', CI + 'emit_key_allowed'] + CI_RD,
       bounds=CI_BOUNDS + '; at most 3 elements in the lists the call extends'),
-    K('registries::claim_issuer::allow_key_accepts', 'reg_ci', must_succeed=True, functions=[CI + 'allow_key'] + CI_RD,
+    K('registries::claim_issuer::allow_key_accepts', 'reg_ci', tier='thorough', must_succeed=True, functions=[CI + 'allow_key'] + CI_RD,
       bounds=CI_BOUNDS + '; non-empty key, new pair, registry confirms, ledger sequence < 2^32 - 30 days'),
     K('registries::claim_issuer::remove_key_step', 'reg_ci', functions=[CI + 'remove_key', CI + 'emit_key_removed'], bounds=CI_BOUNDS),
     K('registries::claim_issuer::remove_key_accepts', 'reg_ci', must_succeed=True, functions=[CI + 'remove_key'], bounds=CI_BOUNDS + '; the pair is stored'),
     K('registries::claim_issuer::getters_agree', 'reg_ci', functions=CI_RD + [CI + 'is_key_allowed_for_registry'],
       bounds=CI_BOUNDS + '; witness key in {K, K2}, witness topic in {topic, t2}, witness registry full u32'),
-    K('registries::claim_issuer::list_getters_agree', 'reg_ci', functions=[CI + 'get_keys_for_topic', CI + 'get_registries'] + CI_RD,
+    K('registries::claim_issuer::list_getters_agree', 'reg_ci', tier='thorough', functions=[CI + 'get_keys_for_topic', CI + 'get_registries'] + CI_RD,
       bounds=CI_BOUNDS + '; witness index full u32'),
     K('registries::claim_issuer::allow_key_registries_limit_not_exceeded', 'reg_ci21', functions=[CI + 'allow_key'] + CI_RD,
       bounds=CI_LIMIT_BOUNDS + '; n in 18..20'),
@@ -93,17 +91,9 @@ BINDER = [
     K('registries::binder::getters_agree', functions=[TB + 'is_token_bound', TB + 'linked_tokens'] + TB_RD, bounds=TB_BOUNDS),
     K('registries::binder::getter_by_index_agrees', functions=[TB + 'get_token_by_index', TB + 'get_token_index'] + TB_RD, bounds=TB_BOUNDS + '; index full u32'),
     K('registries::binder::getter_index_of_agrees', functions=[TB + 'get_token_by_index', TB + 'get_token_index'] + TB_RD, bounds=TB_BOUNDS),
-    K('registries::binder::operations_accepted', must_succeed=True,
+    K('registries::binder::operations_accepted', tier='thorough', must_succeed=True,
       functions=[TB + 'get_token_by_index', TB + 'get_token_index', TB + 'unbind_token', TB + 'bind_token'] + TB_RD,
       bounds=TB_BOUNDS + '; at most 3 tokens before; ledger sequence < 2^32 - 30 days'),
-    K('registries::binder::edge::unbind_token_edge', 'reg_edge', functions=[TB + 'unbind_token', TB + 'get_token_index', TB + 'get_token_by_index'] + TB_RD,
-      bounds=TB_EDGE + '; count in 99..103'),
-    K('registries::binder::edge::bind_token_edge', 'reg_edge', functions=[TB + 'bind_token', TB + 'is_token_bound'] + TB_RD, bounds=TB_EDGE + '; count in 98..102'),
-    K('registries::binder::edge::getters_edge', 'reg_edge', tier='thorough', functions=[TB + 'is_token_bound', TB + 'get_token_by_index', TB + 'get_token_index'] + TB_RD,
-      bounds=TB_EDGE + '; count in 99..103'),
-    K('registries::binder::edge::operations_accepted_edge', 'reg_edge', tier='thorough', must_succeed=True,
-      functions=[TB + 'get_token_by_index', TB + 'get_token_index', TB + 'unbind_token', TB + 'bind_token'] + TB_RD,
-      bounds=TB_EDGE + '; count in 99..102; ledger sequence < 2^32 - 30 days'),
 ]
 
 IR = 'rwa::identity_registry_storage::'
@@ -115,8 +105,8 @@ IR_BOUNDS = ('one call from an ARBITRARY stored state over two accounts satisfyi
 IRS = [
     K('registries::irs::add_identity_step', 'reg_irs', functions=[IR + 'add_identity', IR + 'validate_country_data', IR + 'emit_identity_stored', IR + 'emit_country_data_event'] + IR_RD, bounds=IR_BOUNDS),
     K('registries::irs::remove_identity_step', 'reg_irs', functions=[IR + 'remove_identity', IR + 'emit_identity_unstored', IR + 'emit_country_data_event'], bounds=IR_BOUNDS),
-    K('registries::irs::remove_identity_accepts', 'reg_irs', must_succeed=True, functions=[IR + 'remove_identity'], bounds=IR_BOUNDS + '; the account is registered'),
-    K('registries::irs::modify_identity_step', 'reg_irs', functions=[IR + 'modify_identity', IR + 'emit_identity_modified'], bounds=IR_BOUNDS),
+    K('registries::irs::remove_identity_accepts', 'reg_irs', tier='thorough', must_succeed=True, functions=[IR + 'remove_identity'], bounds=IR_BOUNDS + '; the account is registered'),
+    K('registries::irs::modify_identity_step', 'reg_irs', tier='thorough', functions=[IR + 'modify_identity', IR + 'emit_identity_modified'], bounds=IR_BOUNDS),
     K('registries::irs::recover_identity_step', 'reg_irs', functions=[IR + 'recover_identity', IR + 'emit_identity_recovered'] + IR_RD, bounds=IR_BOUNDS + '; old and new account symbolic among the two'),
     K('registries::irs::recovered_account_stays_out', 'reg_irs', functions=[IR + 'recover_identity', IR + 'add_identity'] + IR_RD,
       bounds=IR_BOUNDS + '; history: recover account 0 onto account 1, then a later invocation tries add_identity(account 0, ...) or recover_identity(1 -> 0)'),
@@ -139,7 +129,7 @@ DOCS = [
     K('registries::docs::set_document_step', 'reg_docs', functions=[DM + 'set_document', DM + 'get_document_count', DM + 'emit_document_updated'], bounds=DM_BOUNDS),
     K('registries::docs::remove_document_step', 'reg_docs', functions=[DM + 'remove_document', DM + 'get_document_count', DM + 'emit_document_removed'], bounds=DM_BOUNDS),
     K('registries::docs::getters_agree', 'reg_docs', functions=[DM + 'get_document', DM + 'get_document_by_index', DM + 'get_document_count', DM + 'get_documents'], bounds=DM_BOUNDS),
-    K('registries::docs::operations_accepted', 'reg_docs', must_succeed=True, functions=[DM + 'get_document', DM + 'get_document_by_index', DM + 'remove_document'],
+    K('registries::docs::operations_accepted', 'reg_docs', tier='thorough', must_succeed=True, functions=[DM + 'get_document', DM + 'get_document_by_index', DM + 'remove_document'],
       bounds=DM_BOUNDS + '; the name is stored, index below the count; ledger sequence < 2^32 - 30 days'),
 ]
 
@@ -162,14 +152,14 @@ CHECKS = {
     'C20': {
         'kani': CLAIM_ISSUER + CTI + BINDER + IRS + DOCS + COMPLIANCE,
         'bounds': 'claim-issuer keys: ' + CI_BOUNDS + ' | limit: ' + CI_LIMIT_BOUNDS + ' | claim topics and issuers: ' + CT_BOUNDS +
-                  ' | token binder: ' + TB_BOUNDS + ' | bucket edge: ' + TB_EDGE + ' | identity registry storage: ' + IR_BOUNDS +
+                  ' | token binder: ' + TB_BOUNDS + ' | identity registry storage: ' + IR_BOUNDS +
                   ' | documents: ' + DM_BOUNDS + ' | compliance modules: ' + CM_SMALL + ' / ' + CM_LIMIT,
         'outside_claim': ('histories are covered by induction over single calls from an arbitrary invariant-satisfying state (each invariant is assumed before and '
                           'asserted after every mutating call, the empty initial state satisfies it, and the getters are shown to describe the reference set/map '
                           'on every invariant-satisfying state); lists longer than the stated vector capacities, hence the limits MAX_KEYS_PER_TOPIC = 50, '
                           'MAX_CLAIM_TOPICS = 15, MAX_ISSUERS = 50, MAX_TOKENS = 10000, MAX_DOCUMENTS = 5000, MAX_COUNTRY_ENTRIES = 15 themselves (their comparisons '
                           'are on every growing path but never true within the capacities; MAX_REGISTRIES_PER_KEY = 20 and MAX_MODULES = 20 are exercised at the '
-                          'limit); token-binder batches (bind_tokens, linked_tokens) across the bucket boundary and more than two buckets; the document-manager '
+                          'limit); the token-binder bucket boundary (BUCKET_SIZE = 100: a harness with 100-element buckets, kani/src/registries/binder.rs mod edge, exceeds 12 GB in symbolic execution and is NOT registered; the in-bucket harnesses cover the swap-and-pop and index logic for counts below the vector capacity, the bucket arithmetic index / BUCKET_SIZE, index % BUCKET_SIZE is only exercised with quotient 0); the document-manager '
                           'bucket boundary (BUCKET_SIZE = 50 entries of 12 words) and URIs above 16 bytes (MAX_URI_LEN = 200); more than two accounts / two '
                           'country entries per identity; the hook-execution functions of the compliance contract (C04 family); the smart-account context-rule '
                           'registry (separate family); the contract-level wrappers that add authorization (the storage functions under test document that they '
@@ -177,7 +167,6 @@ CHECKS = {
         'stubs_and_assumes': [
             'the representation invariant of each registry is ASSUMED on the pre-state and ASSERTED on the post-state of every mutating call',
             'claim issuer: the registry contract asked by allow_key (has_claim_topic) answers arbitrarily or fails; pinned to "true" in the must-succeed harnesses',
-            'token-binder bucket edge: 99 of the 100 addresses of bucket 0 are fixed pairwise different constants (the library only compares addresses)',
             'token binder / identity registry storage: the private key types TokenBinderStorageKey / IRSStorageKey are mirrored by enums with the same variant names (same storage keys)',
             'must-succeed harnesses assume ledger sequence + 30 days fits u32 (TTL extension)',
         ],
